@@ -411,7 +411,7 @@ def run_microfull(ctx, quick):
                      "histories are reproduced by the machine step by step (known findings), the three Coq refutation witnesses are corpus cases")
     for sig, lst in known.items():
         c, why = min(lst, key=lambda x: sum(len(l) for l in x[0]["tasks"]))
-        ctx.violation(sig, "micro_full (real code == Dict/MicroFull.v on this schedule): " + why, dict(case=c, script=impl_script(c)))
+        ctx.violation(sig, "micro_full (real code == Dict/MicroFull.v on this schedule): " + why, dict(case=c, microfull_script=impl_script(c)))
     seen_dead = set()
     for c in dead:
         sig = case_class(c)
@@ -419,15 +419,15 @@ def run_microfull(ctx, quick):
             continue
         seen_dead.add(sig)
         if sig == "concurrent-insert-only":
-            ctx.violation("unlisted:micro_full crash", "the real code crashed or hung in an insert-only directed run", dict(case=c, script=impl_script(c)))
+            ctx.violation("unlisted:micro_full crash", "the real code crashed or hung in an insert-only directed run", dict(case=c, microfull_script=impl_script(c)))
         else:
-            ctx.violation(sig, "micro_full: the real code crashed or hung in a directed %s run" % sig, dict(case=c, script=impl_script(c)))
+            ctx.violation(sig, "micro_full: the real code crashed or hung in a directed %s run" % sig, dict(case=c, microfull_script=impl_script(c)))
     if mism or not pr["ok"]:
         what = ("micro_full: correspondence real code / Dict/MicroFull.v broken (%d cases; first: %s)" % (len(mism), mism[0][0])) if mism else \
                "theorems in %s no longer check" % PROPS
         if unexplained:
             w, c = unexplained[0]
-            ctx.violation("broken+input", what + "; failing input: " + w, dict(failing_input=c, script=impl_script(c), reason=w,
+            ctx.violation("broken+input", what + "; failing input: " + w, dict(failing_input=c, microfull_script=impl_script(c), reason=w,
                                                                             first_mismatch=mism[0] if mism else None, coq_log=pr["log"][-1500:]))
         else:
             # a failing input among the disagreeing cases: the real history is rejected although the machine's is accepted
@@ -447,11 +447,11 @@ def run_microfull(ctx, quick):
                         break
             if fi:
                 ctx.violation("broken+input", what + "; failing input (the machine's history for these grants is linearizable, the real one is not): " + fi[0],
-                              dict(failing_input=fi[1], script=impl_script(fi[1]), reason=fi[0], first_mismatch=mism[0] if mism else None))
+                              dict(failing_input=fi[1], microfull_script=impl_script(fi[1]), reason=fi[0], first_mismatch=mism[0] if mism else None))
             else:
                 ctx.violation("broken", what, dict(theorem_or_correspondence=("impl != Dict.MicroFull: " + mism[0][0]) if mism else PROPS,
-                                                   first_mismatch=mism[0] if mism else None, script=impl_script(mism[0][1]) if mism else None,
+                                                   first_mismatch=mism[0] if mism else None, microfull_script=impl_script(mism[0][1]) if mism else None,
                                                    coq_log=pr["log"][-1500:]), no_input=True)
     else:
         for (w, c) in unexplained[:2]:
-            ctx.violation("unlisted:micro_full " + w.split(":")[0], w, dict(case=c, script=impl_script(c)))
+            ctx.violation("unlisted:micro_full " + w.split(":")[0], w, dict(case=c, microfull_script=impl_script(c)))
